@@ -119,17 +119,22 @@ def gj_solve(m=[1., 0.], n=3, nb=1, result=[0.0, 0.0]):
     augCol = n + nb
     nt = n + nb
 
-    for col in range(colrange):
+    rr, rrcol, rb, rbr, kup, kupr, kleft, kleftr = declare('int', 8)
+    for rrcol in range(0, colrange):
+        # Partial pivoting: find the row with the largest entry in this
+        # column (on or below the diagonal) and exchange it with the pivot
+        # row before eliminating.
+        col = rrcol
         bigrow = col
         for row in range(col + 1, colrange):
             if abs(m[nt*row + col]) > abs(m[nt*bigrow + col]):
                 bigrow = row
-                temp = m[nt*row + col]
-                m[nt*row + col] = m[nt*bigrow + col]
-                m[nt*bigrow + col] = temp
+        if bigrow != col:
+            for j in range(augCol):
+                temp = m[nt*col + j]
+                m[nt*col + j] = m[nt*bigrow + j]
+                m[nt*bigrow + j] = temp
 
-    rr, rrcol, rb, rbr, kup, kupr, kleft, kleftr = declare('int', 8)
-    for rrcol in range(0, colrange):
         for rr in range(rrcol + 1, eqns):
             dnr = float(m[nt*rrcol + rrcol])
             if abs(dnr) < 1e-12:
